@@ -36,14 +36,14 @@ SECTIONS = {
     "extract_toMatrix33_rotating": ["extract-roundtrip", "extract-toMatrix-real", "toMatrix33-vs-spec"],
     "extract_toMatrix33_static_rep": ["extract-roundtrip", "extract-toMatrix-real", "toMatrix33-vs-spec"],
     "extract_toMatrix33_rotating_rep": ["extract-roundtrip", "extract-toMatrix-real", "toMatrix33-vs-spec"],
-    "extractEulerXYZ_eq_member": ["extractEulerXYZ"], "extractEulerZYX_eq_member": ["extractEulerZYX"],
+    "extractEulerXYZ_eq_member": ["extractEulerXYZ", "extract33-vs-extract44"], "extractEulerZYX_eq_member": ["extractEulerZYX", "extract33-vs-extract44"],
     "toMatrix33_orthonormal_det_one": ["toMatrix33-vs-spec"],
     "toQuat_eq_spec": ["toQuat-vs-spec"], "toQuat_unit": ["toQuat-vs-spec"],
     "toQuat_toMatrix33_eq_toMatrix33": ["toQuat-vs-spec", "toMatrix33-vs-spec"],
     "toMatrix44_XYZ_eq_setEulerAngles": ["toMatrix44-vs-spec", "setEulerAngles"],
     "extract_M44_eq_extract_M33": ["extract33-vs-extract44"],
     "extract_Quat_eq": ["extract-quat-roundtrip"],
-    "ctor_matrix_eq_extract": ["extract-roundtrip", "extract-roundtrip-gimbal"],
+    "ctor_matrix_eq_extract": ["extract-roundtrip", "extract-roundtrip-gimbal", "order"],
     "reorder_ctor_eq": ["reorder", "reorder-order"],
     "flip_same_rotation": ["makeNear-rotation", "nearestRotation-rotation", "toMatrix33-vs-spec"],
     "makeNear_preserves_rotation": ["makeNear-rotation", "makeNear-order"],
@@ -55,11 +55,12 @@ SECTIONS = {
     "toXYZVector_slots": ["toXYZVector-slots", "angleMapping"],
     "toXYZVector_setXYZVector": ["setXYZVector-inverse", "toXYZVector-inverse", "angleMapping"],
     "setXYZVector_toXYZVector": ["setXYZVector-inverse", "toXYZVector-inverse", "angleMapping"],
-    "ctor_layouts": ["ctorXYZLayout", "ctorXYZLayoutScalars", "ctorIJKLayout"],
+    "ctor_layouts": ["ctorXYZLayout", "ctorXYZLayoutScalars", "ctorIJKLayout", "order"],
+    "setOrder_keeps_angles": ["order"],
     "toXYZVector_ctorXYZLayout": ["ctorXYZLayout", "toXYZVector-inverse"],
     "real_angleOrder_eq_model": ["angleOrder"], "angleOrder_permutation": ["angleOrder"],
     "real_angleMapping_eq_model": ["angleMapping"], "angleMapping_inverts_angleOrder": ["angleMapping"],
-    "real_order_eq_model": ["order"], "order_setOrder": ["order"],
+    "real_order_eq_model": ["order", "reorder-order"], "order_setOrder": ["order", "reorder-order"],
     "extractEulerXYZ_inverts_setEulerAngles": ["extractEulerXYZ"], "extractEulerZYX_inverts_builder": ["extractEulerZYX"],
     "extractEuler_inverts_setRotation": ["extractEuler22", "extractEuler33"],
     "extract_inverts_toMatrix33_partial": ["extract-roundtrip", "extract-toMatrix-real", "extract-roundtrip-gimbal"],
